@@ -26,6 +26,7 @@ SPEC = {
     ],
     "assumptions": [
         "no method is critical (critical methods skip the authentication handler): checked on the regenerated list of MethodMetadata() implementers, which must be empty",
+        "only decided blocks reach the delivery state: the model has no proposal phase; on the real code, proposals that are executed (PrepareProposal / ProcessProposal) and then abandoned are part of the histories and must leave no trace",
         "operations other than DeliverTx (BeginBlock, EndBlock, Commit, other applications) do not write account nonces: true by construction in the model, checked on the real code by the per-block nonce comparison across blocks and restarts",
         "chain contexts have equal length and dynamic context suffixes have equal length (production: 64 hex characters each); without this the construction context||message is provably not injective (the two *_refuted theorems)",
         "a byte string that decodes to the same (blob, public key, signature) as another is the same signed content: envelope-framing malleability of the CBOR decoder is outside the signature's reach and is reported as a finding by the harness",
